@@ -24,11 +24,13 @@ class Space(object):
         self.seed = seed
         self.rng = random.Random(seed)
         if tier == "quick":
-            self.g_ex, self.k_ex = 6, 3
+            # dyadic grids only: sums, differences and halvings of the inputs
+            # are exact in binary64, so ties are ties in the float run as well
+            self.g_ex, self.k_ex = 8, 3
             self.n_rand_pairs = 1500
             self.n_lists = 250
         else:
-            self.g_ex, self.k_ex = 8, 3
+            self.g_ex, self.k_ex = 8, 4
             self.n_rand_pairs = 20000
             self.n_lists = 3000
 
